@@ -167,6 +167,15 @@ class AssociationAcceptor(socketserver.StreamRequestHandler, Association):
 
         socketserver.StreamRequestHandler.__init__(self, request, client_address, local_ae)
 
+    def setup(self):
+        """Releases the file object made for reading from the connection.
+
+        The transport connection belongs to the DUL provider: an open file object made
+        from the socket would keep the connection open after the provider has closed it.
+        """
+        socketserver.StreamRequestHandler.setup(self)
+        self.rfile.close()
+
     def kill(self):
         """Overrides base class kill method to set stop-flag for running thread
 
